@@ -41,7 +41,15 @@ def drive_second(ws_factory, clock):
 
 
 def summary(run):
-    return [tuple(sorted((k, str(v)) for k, v in harness.ev_summary(e).items() if k != 'url')) for e in run.events], len(run.sock.out) if run.sock else 0
+    def one(e):
+        d = dict(harness.ev_summary(e))
+        r = getattr(e, 'response', None)
+        if r is not None:
+            # what the application is told about the upgrade reply (left-over bytes of an earlier connection in front of the
+            # status line still give a 101 - and a mangled version / reason); the Accept value depends on the fresh key
+            d['response'] = (r.http_ver, r.status_code, r.status, sorted((k, v) for k, v in r.headers.items() if k != 'sec-websocket-accept'))
+        return tuple(sorted((k, str(v)) for k, v in d.items() if k != 'url'))
+    return [one(e) for e in run.events], len(run.sock.out) if run.sock else 0
 
 
 def replay(obligation, extra):
